@@ -138,6 +138,10 @@ impl RankSelectMixedIL256 {
         assert!(pos <= self.size[dim]);
         if pos == 0 { return 0; }
         let line_idx = pos / LINE_BITS;
+        if line_idx >= self.lines.len() {
+            // pos == size and the longest dimension ends on a line boundary: there is no sentinel line
+            return self.max_rank1[dim];
+        }
         let bit_in_line = pos % LINE_BITS;
         let dl = &self.lines[line_idx].dim[dim];
         dl.rlev1 as usize + dl.rank1_within(bit_in_line)
